@@ -340,7 +340,14 @@ func (s *Stack) ForEach(expr string, fn func(index int, value any) error) error 
 	case reflect.Map:
 		keys := rv.MapKeys()
 		// Go randomises map iteration: sort the keys so that the same data renders the same bytes
-		sort.Slice(keys, func(i, j int) bool { return fmt.Sprint(keys[i]) < fmt.Sprint(keys[j]) })
+		// (keys of different types may print the same - 1 and "1" in a map[any]any: their types decide then)
+		sort.Slice(keys, func(i, j int) bool {
+			a, b := fmt.Sprint(keys[i]), fmt.Sprint(keys[j])
+			if a != b {
+				return a < b
+			}
+			return fmt.Sprintf("%T", keys[i].Interface()) < fmt.Sprintf("%T", keys[j].Interface())
+		})
 		for i, key := range keys {
 			if err := fn(i, rv.MapIndex(key).Interface()); err != nil {
 				return err
